@@ -128,6 +128,7 @@ func (f *FibStrategyTree) FindNextHopsEnc(name enc.Name) []*FibNextHopEntry {
 	verifBeforeRLock(&f.fibStrategyRWMutex, "fib.rlock")
 	f.fibStrategyRWMutex.RLock()
 	defer f.fibStrategyRWMutex.RUnlock()
+	verifReading(&f.fibStrategyRWMutex, "fib.read")
 
 	// Find longest prefix matching entry
 	curNode := f.root.findLongestPrefixEntryEnc(name)
@@ -154,6 +155,7 @@ func (f *FibStrategyTree) FindStrategyEnc(name enc.Name) enc.Name {
 	verifBeforeRLock(&f.fibStrategyRWMutex, "fib.rlock")
 	f.fibStrategyRWMutex.RLock()
 	defer f.fibStrategyRWMutex.RUnlock()
+	verifReading(&f.fibStrategyRWMutex, "fib.read")
 
 	// Find longest prefix matching entry
 	curNode := f.root.findLongestPrefixEntryEnc(name)
@@ -177,6 +179,7 @@ func (f *FibStrategyTree) InsertNextHopEnc(name enc.Name, nexthop uint64, cost u
 	verifBeforeWLock(&f.fibStrategyRWMutex, "fib.lock")
 	f.fibStrategyRWMutex.Lock()
 	defer f.fibStrategyRWMutex.Unlock()
+	verifMutating(&f.fibStrategyRWMutex, "fib.mut")
 
 	name = name.Clone()
 	entry := f.fillTreeToPrefixEnc(name)
@@ -202,6 +205,7 @@ func (f *FibStrategyTree) ClearNextHopsEnc(name enc.Name) {
 	verifBeforeWLock(&f.fibStrategyRWMutex, "fib.lock")
 	f.fibStrategyRWMutex.Lock()
 	defer f.fibStrategyRWMutex.Unlock()
+	verifMutating(&f.fibStrategyRWMutex, "fib.mut")
 
 	if name == nil {
 		return // In some weird case, when RibEntry.updateNexthops() is called, the name becomes nil.
@@ -220,6 +224,7 @@ func (f *FibStrategyTree) RemoveNextHopEnc(name enc.Name, nexthop uint64) {
 	verifBeforeWLock(&f.fibStrategyRWMutex, "fib.lock")
 	f.fibStrategyRWMutex.Lock()
 	defer f.fibStrategyRWMutex.Unlock()
+	verifMutating(&f.fibStrategyRWMutex, "fib.mut")
 	entry := f.root.findExactMatchEntryEnc(name)
 	if entry != nil {
 		for i, existingNexthop := range entry.nexthops {
@@ -243,6 +248,7 @@ func (f *FibStrategyTree) GetAllFIBEntries() []FibStrategyEntry {
 	verifBeforeRLock(&f.fibStrategyRWMutex, "fib.rlock")
 	f.fibStrategyRWMutex.RLock()
 	defer f.fibStrategyRWMutex.RUnlock()
+	verifReading(&f.fibStrategyRWMutex, "fib.read")
 
 	entries := make([]FibStrategyEntry, 0)
 	// Walk tree in-order
@@ -269,6 +275,7 @@ func (f *FibStrategyTree) SetStrategyEnc(name enc.Name, strategy enc.Name) {
 	verifBeforeWLock(&f.fibStrategyRWMutex, "fib.lock")
 	f.fibStrategyRWMutex.Lock()
 	defer f.fibStrategyRWMutex.Unlock()
+	verifMutating(&f.fibStrategyRWMutex, "fib.mut")
 
 	name = name.Clone()
 	strategy = strategy.Clone()
@@ -285,6 +292,7 @@ func (f *FibStrategyTree) UnSetStrategyEnc(name enc.Name) {
 	verifBeforeWLock(&f.fibStrategyRWMutex, "fib.lock")
 	f.fibStrategyRWMutex.Lock()
 	defer f.fibStrategyRWMutex.Unlock()
+	verifMutating(&f.fibStrategyRWMutex, "fib.mut")
 	entry := f.root.findExactMatchEntryEnc(name)
 	if entry != nil {
 		entry.strategy = nil
@@ -297,6 +305,7 @@ func (f *FibStrategyTree) GetAllForwardingStrategies() []FibStrategyEntry {
 	verifBeforeRLock(&f.fibStrategyRWMutex, "fib.rlock")
 	f.fibStrategyRWMutex.RLock()
 	defer f.fibStrategyRWMutex.RUnlock()
+	verifReading(&f.fibStrategyRWMutex, "fib.read")
 
 	entries := make([]FibStrategyEntry, 0)
 	// Walk tree in-order
